@@ -85,6 +85,14 @@ def check_block(models, what):
     tree = CBlock.build_merkle_tree_from_txids(given)
     if given != txids:
         raise Viol('%s: build_merkle_tree_from_txids changed the list it was given' % what, len(txids), len(given))
+    if isinstance(tree, list) and len(tree) > 1:
+        snapshot_tree = list(tree)
+        tree.pop()
+        tree[0] = b'\x00' * 32
+        again = CBlock.build_merkle_tree_from_txids(given)
+        if list(again) != snapshot_tree:
+            raise Viol('%s: editing the list returned by build_merkle_tree_from_txids changes the result of the next call' % what, None, None)
+        tree = snapshot_tree
     if list(CBlock.build_merkle_tree_from_txids(given)) != list(tree) or list(CBlock.build_merkle_tree_from_txids(tuple(txids))) != list(tree):
         raise Viol('%s: build_merkle_tree_from_txids gives different trees for the same txids (second call / tuple)' % what, None, None)
     if list(tree) != W.merkle_tree(txids):
@@ -136,14 +144,14 @@ class Counts(Family):
 
     def cases(self, shard, tier):
         for n in shard:
-            for wp in ('none', 'all', 'last', 'coinbase_only', 'odd', 'coinbase_shaped_later'):
+            for wp in ('none', 'all', 'last', 'coinbase_only', 'odd', 'coinbase_shaped_later', 'empty_witness_objects'):
                 yield (n, wp)
 
     def check(self, case):
         n, wp = case
         models = []
         for i in range(n):
-            w = {'none': False, 'all': True, 'last': i == n - 1, 'coinbase_only': i == 0, 'odd': i % 2 == 1, 'coinbase_shaped_later': True}[wp]
+            w = {'none': False, 'all': True, 'last': i == n - 1, 'coinbase_only': i == 0, 'odd': i % 2 == 1, 'coinbase_shaped_later': True, 'empty_witness_objects': i % 4 == 3}[wp]
             if wp == 'coinbase_shaped_later' and i and i % 3 == 2:
                 cbl = coinbase(True)            # a coinbase-shaped transaction that is not the first one keeps its own witness hash
                 cbl['locktime'] = i
@@ -151,6 +159,10 @@ class Counts(Family):
                 models.append(cbl)
                 continue
             models.append(coinbase(w) if i == 0 else pool_tx(i, w))
+            if wp == 'empty_witness_objects' and not w:
+                # a witness *object* whose stacks are all empty (as a transaction converted from a default-constructed
+                # mutable one carries): no witness data, weight = 4 x size
+                models[-1]['wit'] = [[] for _ in models[-1]['vin']]
         check_block(models, 'n=%d witness=%s' % (n, wp))
         return wp, n >= 2
 
@@ -237,7 +249,7 @@ class Weights(Family):
 
     def cases(self, shard, tier):
         nin, nout = shard
-        k = 1 if (tier == 'quick' or nin > 3) else 2
+        k = 2
         if nin > 3 or nout > 3:
             for s in ({}, {'witall': [1, 2]}, {'wit.0': [253]}):
                 yield {'nin': nin, 'nout': nout, 'set': s}
